@@ -1,6 +1,7 @@
 package main
 
 import (
+	"fmt"
 	"golang.org/x/tools/go/ssa"
 )
 
@@ -51,6 +52,19 @@ func runC36(c *Ctx) {
 		if n == 0 {
 			c.Unresolved("C36.O2", "removeFromOngoingExcises not found in DB.ingest")
 		}
+		// the callbacks handed to AllocateSeqNum run BEFORE the publish: none of ingest's closures
+		// may unregister the excise (the flow above only sees ingest's own body)
+		var inClosures func(f *ssa.Function) int
+		inClosures = func(f *ssa.Function) int {
+			k := 0
+			for _, a := range f.AnonFuncs {
+				k += len(instrs(a, CallTo("p.(*DB).removeFromOngoingExcises"))) + inClosures(a)
+			}
+			return k
+		}
+		nc := inClosures(fn)
+		c.Ob("C36.O2", fn, "the excise is not unregistered from inside a prepare/apply callback", c.P.Pos(fn.Pos()), nc == 0,
+			map[bool]string{true: "", false: fmt.Sprintf("%d call(s) of removeFromOngoingExcises inside closures of DB.ingest: those run before the sequence number is published", nc)}[nc == 0])
 		// R1: registration under DB.mu (inside the prepare closure)
 		lock, unlock, _ := dbMuMatchers(c, "C36.R1")
 		mapUpd := Pred("ongoingExcises[seqNum] = span", func(in ssa.Instruction) bool {
